@@ -61,6 +61,8 @@ EDITS = [
   "        let start =\n            (y as usize * self.width as usize + x as usize) * self.digit_count as usize;",
   "        let self_height = self.width;\n        let start =\n            (y as usize * self.height as usize + x as usize) * self.digit_count as usize;"),
  ("D9 seed narrowed to u32 in the signature", "src/matrix_card.rs", "fn generate_coordinates(width: u8, height: u8, challenge_count: u8, mut seed: u64)", "fn generate_coordinates(width: u8, height: u8, challenge_count: u8, mut seed: u32)"),
+ ("S1 bitwise not on the length (`!s.len() > 16` is `(!s.len()) > 16`)", "src/normalized_string.rs",
+  "if s.len() > MAXIMUM_STRING_LENGTH_IN_BYTES as usize || s.is_empty()", "if !(!s.len() > MAXIMUM_STRING_LENGTH_IN_BYTES as usize) || s.is_empty()"),
  ("L2 loop variable shadowed by a local", "src/vanilla_header/encrypt.rs",
   "        *unencrypted = encrypted;\n        *previous_value = encrypted;", "        *unencrypted = encrypted;\n        let unencrypted = encrypted ^ 1;\n        *previous_value = unencrypted;"),
 ]
@@ -69,7 +71,7 @@ def gen(repo, out):
     os.makedirs(out, exist_ok=True)
     subprocess.run([sys.executable, os.path.join(VERIF, "tools", "gen_code.py"), repo, os.path.join(out, "Code.lean")], capture_output=True)
     subprocess.run([sys.executable, os.path.join(VERIF, "tools", "gen_constants.py"), repo, os.path.join(out, "Constants.lean")], capture_output=True)
-    return open(os.path.join(out, "Code.lean")).read() + open(os.path.join(out, "CodeImp.lean")).read() + open(os.path.join(out, "CodeStr.lean")).read(), open(os.path.join(out, "Constants.lean")).read() + open(os.path.join(out, "Facts.lean")).read()
+    return open(os.path.join(out, "Code.lean")).read() + open(os.path.join(out, "CodeImp.lean")).read() + open(os.path.join(out, "CodeStr.lean")).read() + open(os.path.join(out, "CodeKsa.lean")).read(), open(os.path.join(out, "Constants.lean")).read() + open(os.path.join(out, "Facts.lean")).read()
 
 def main():
     tmp = tempfile.mkdtemp(prefix="trsel_", dir="/root")
@@ -108,6 +110,8 @@ def main():
             open(p, "w").write(s)
             c1, k1 = gen(d, os.path.join(tmp, "g%d" % (i + 1)))
             vis = (c1 != c0) or (k1 != k0)
+            if name[:2] in ("S1",):
+                vis = ", some " in c1
             if name[:2] in ("M4", "M5", "L2") or name.startswith("H2a"):
                 # for these the danger is a term that differs textually but MEANS the model's function: the translator has to refuse
                 vis = "unsupported" in c1
